@@ -31,16 +31,48 @@ func ruleL8(p *Prog) *RuleResult {
 		}
 	}
 	sort.Slice(fns, func(i, j int) bool { return fname(fns[i]) < fname(fns[j]) })
+	// a decoding step moved into a helper still belongs to the decoder that hands it the input: obligations are
+	// named after the outermost input-taking function that (transitively) calls the one holding the store
+	isDec := map[*ssa.Function]bool{}
 	for _, f := range fns {
-		n := 0
+		isDec[f] = true
+	}
+	callers := map[*ssa.Function][]*ssa.Function{}
+	for _, f := range fns {
+		for _, b := range f.Blocks {
+			for _, ins := range b.Instrs {
+				if c, ok := ins.(ssa.CallInstruction); ok {
+					if g := c.Common().StaticCallee(); g != nil && isDec[g] && g != f {
+						callers[g] = append(callers[g], f)
+					}
+				}
+			}
+		}
+	}
+	rootOf := func(f *ssa.Function) *ssa.Function {
+		seen := map[*ssa.Function]bool{}
+		for !seen[f] {
+			seen[f] = true
+			cs := callers[f]
+			if len(cs) == 0 {
+				break
+			}
+			sort.Slice(cs, func(i, j int) bool { return fname(cs[i]) < fname(cs[j]) })
+			f = cs[0]
+		}
+		return f
+	}
+	perRoot := map[*ssa.Function]int{}
+	for _, f := range fns {
+		root := rootOf(f)
 		for _, b := range f.Blocks {
 			for _, ins := range b.Instrs {
 				call, ok := ins.(*ssa.Call)
 				if !ok || !strings.HasSuffix(calleeName(&call.Call), "byteSliceAsInterval16Slice") {
 					continue
 				}
-				n++
-				c := fmt.Sprintf("%s|run list taken from the input#%d", fname(f), n)
+				perRoot[root]++
+				c := fmt.Sprintf("%s|run list taken from the input#%d", fname(root), perRoot[root])
 				looked := ""
 				seen := map[ssa.Value]bool{}
 				var walk func(v ssa.Value, d int)
